@@ -208,3 +208,26 @@ M("C04", "padded-blank-skip-also-tabs", [(RC, "            while (c == ' ') {\n 
   "equivalent for files the library writes (no tab padding)", control=True)
 M("C04", "int8-scanned-as-char-width", [(RC, "	formats[NPY_INT8] += NPY_INT8_FMT;\n	formats[NPY_UINT8] += NPY_UINT8_FMT;\n	\n	formats[NPY_INT16]", "	formats[NPY_INT8] += NPY_INT8_FMT;\n	formats[NPY_UINT8] += NPY_INT16_FMT;\n	\n	formats[NPY_INT16]")],
   "unsigned bytes scanned with the 16-bit format: writes two bytes into a one-byte field (next field or heap)")
+
+# ---- C02
+M("C02", "rows-sorted-not-unique", [(RU, "        rows2read = numpy.unique(rows2read)\n", "        rows2read = numpy.sort(rows2read)\n")],
+  "repeated row numbers are read twice (text: the second copy is the following row)")
+M("C02", "binary-slice-skip-step", [(RC, "            skip_binary_rows(step-1);", "            skip_binary_rows(step > 2 ? step : step-1);")],
+  "binary slices with step >= 3 advance one row too far")
+M("C02", "colnums-not-sorted", [(RU, "        return numpy.unique(colnums)\n", "        return colnums\n")],
+  "columns requested out of file order are read in request order (C++ assumes ascending)")
+M("C02", "split-reversed", [(SF, "        if split:\n            result = split_fields(result)\n        elif reduce:", "        if split:\n            result = split_fields(result)[::-1]\n        elif reduce:")],
+  "SFile split=True returns the columns in reverse order")
+M("C02", "slice2rows-negative-stop-off-by-one", [(RU, "        start, stop, step = slice(start, stop, step).indices(self.nrows)\n\n        return numpy.arange(start, stop, step, dtype=\"i8\")",
+                                               "        if stop is not None and stop < 0:\n            stop = stop + 1 if stop < -1 else None\n        start, stop, step = slice(start, stop, step).indices(self.nrows)\n\n        return numpy.arange(start, stop, step, dtype=\"i8\")")],
+  "text / column-subset path: negative stop is taken inclusive (the original defect)")
+M("C02", "text-skip-rows-far", [(RC, "			rows2skip = row2read - current_row;\n		}\n		skip_text_rows(rows2skip);", "			rows2skip = row2read - current_row;\n			if (rows2skip > 8) rows2skip -= 1;\n		}\n		skip_text_rows(rows2skip);")],
+  "text files: a gap of more than 8 rows between requested rows skips one row too few")
+M("C02", "binary-column-seek-from-row-start", [(RC, "                seek_distance = mOffsets[col2read] - current_offset;\n                do_seek(seek_distance);", "                seek_distance = mOffsets[col2read] - (icol > 1 ? current_offset - 0*colsize : current_offset);\n                if (icol > 2) seek_distance += 1;\n                do_seek(seek_distance);")],
+  "binary column subsets with four or more selected columns that skip a field read the fourth one byte off")
+M("C02", "single-row-clipped", [(RU, "            if num < 0:\n                num = self.nrows + num\n\n        return num", "            if num < 0:\n                num = self.nrows + num\n            elif num > self.nrows + 1:\n                num = self.nrows - 1\n\n        return num")],
+  "single row numbers beyond n+1 are clipped to the last row instead of rejected")
+M("C02", "reduce-none-for-many", [(SF, "                return data[data.dtype.names[0]]\n\n    return data\n", "                return data[data.dtype.names[0]]\n            if len(data.dtype.names) > 3:\n                return None\n\n    return data\n")],
+  "reduce=True returns None for more than three fields")
+M("C02", "control-process-slice-clamp", [(RU, "        if stop < start:\n            # will return an empty struct\n            stop = start\n\n        return slice(start, stop, step)", "        if stop <= start:\n            # will return an empty struct\n            stop = start\n\n        return slice(start, stop, step)")],
+  "equivalent", control=True)
